@@ -210,7 +210,7 @@ func Run(run *core.Run) core.Coverage {
 	}
 	var tasks []sched.Task
 	for _, s := range scs {
-		tasks = append(tasks, sched.Task{Label: s.Name, Program: Program, Config: s, Horizon: horizon})
+		tasks = append(tasks, sched.Task{Label: s.Name, Program: Program, Config: s, Horizon: horizon, Rungs: s.Rungs})
 	}
 
 	nw := runtime.GOMAXPROCS(0)
@@ -261,6 +261,9 @@ func Run(run *core.Run) core.Coverage {
 		valhists += int64(maxVals)
 		distinctObs += len(obsSet)
 		row := map[string]interface{}{"thread_set": sc.Name, "operations": sc.String(), "executions_all_spaces": execs, "distinct_outcomes": len(obsSet)}
+		if sc.Rungs > 0 {
+			row["explored_only_the_first_spaces"] = sc.Rungs
+		}
 		if last != nil {
 			row["largest_space_completed"] = last.Rung.String()
 			row["executions_in_it"] = last.Executions
